@@ -143,6 +143,9 @@ func engine(family, profile string, seed uint64, n int, out string, shard int, i
 				}
 				failures = append(failures, map[string]any{"id": i, "tags": []string{tag}, "detail": c.FEDiff})
 			}
+			if c.FEPure != "" {
+				failures = append(failures, map[string]any{"id": i, "tags": []string{"request_unchanged"}, "detail": c.FEPure})
+			}
 		} else {
 			c = eng.NewCase(g, i, nil)
 		}
